@@ -33,12 +33,18 @@ def log(*a):
     print("[verif]", *a, file=sys.stderr, flush=True)
 
 
+def _limits():
+    # no child of a check may write a file larger than 3 GiB (a runaway driver must not fill the disk)
+    import resource
+    resource.setrlimit(resource.RLIMIT_FSIZE, (3 << 30, 3 << 30))
+
+
 def sh(cmd, timeout=None, env=None, cwd=None, stdout=None, stderr=None, check=False, input=None):
     e = dict(os.environ)
     if env:
         e.update(env)
     try:
-        r = subprocess.run(cmd, timeout=timeout, env=e, cwd=cwd, input=input,
+        r = subprocess.run(cmd, timeout=timeout, env=e, cwd=cwd, input=input, preexec_fn=_limits,
                            stdout=stdout if stdout is not None else subprocess.PIPE,
                            stderr=stderr if stderr is not None else subprocess.STDOUT,
                            text=True, errors="replace")
